@@ -53,7 +53,7 @@ SAFE_BUILTINS: Dict[str, Callable] = {
     "len": len, "range": range, "list": list, "tuple": tuple, "dict": dict, "set": set, "zip": zip, "map": map, "filter": filter,
     "enumerate": enumerate, "sorted": sorted, "reversed": reversed, "min": min, "max": max, "sum": sum, "abs": abs, "any": any, "all": all,
     "str": str, "int": int, "float": float, "bool": bool, "isinstance": isinstance, "type": type, "repr": repr, "round": round,
-    "OrderedDict": dict, "complex": complex, "iter": iter, "next": lambda it, *d: _next(it, *d), "issubclass": issubclass, "hasattr": hasattr, "getattr": getattr,
+    "OrderedDict": dict, "complex": complex, "slice": slice, "iter": iter, "next": lambda it, *d: _next(it, *d), "issubclass": issubclass, "hasattr": hasattr, "getattr": getattr,
     "frozenset": frozenset, "divmod": divmod, "pow": pow, "print": (lambda *a, **k: None),
 }
 EXC_NAMES = {"ValueError", "TypeError", "KeyError", "IndexError", "NotImplementedError", "RuntimeError", "AssertionError", "Exception",
